@@ -4,6 +4,7 @@ import (
 	"bytes"
 	"context"
 	"fmt"
+	"github.com/formancehq/ledger/verifh/pgsim"
 	"strings"
 	"time"
 
@@ -347,7 +348,17 @@ func mkScenarios(ledgers []lx.LedgerSpec, oracle func(context.Context, *world.Wo
 			if err != nil {
 				return nil, fmt.Errorf("%s: %w", d.name, err)
 			}
-			scs = append(scs, opsScenario(d.name, base, refs, l[0].Name, d.threads, oracle))
+			sc := opsScenario(d.name, base, refs, l[0].Name, d.threads, oracle)
+			if d.deadlockAt != nil {
+				at := d.deadlockAt
+				sc.Fault = func(thread, call int, op, sql string) error {
+					if c, ok := at[thread]; ok && c == call && (op == "exec" || op == "query") {
+						return &pgsim.StmtFault{Code: "40P01", Msg: "deadlock detected"}
+					}
+					return nil
+				}
+			}
+			scs = append(scs, sc)
 		}
 		return scs, nil
 	}
@@ -358,6 +369,10 @@ type scenarioDef struct {
 	ledgers []lx.LedgerSpec
 	prefix  []lx.Op
 	threads [][]lx.Op
+	// deadlockAt: thread -> 1-based index of the driver call of that thread which fails, once,
+	// with SQLSTATE 40P01 (K2 x K3): the ledger's retry path (forgeLogRetry) is then explored
+	// under every schedule without spending preemptions on building a real lock cycle
+	deadlockAt map[int]int
 }
 
 var longRef = strings.Repeat("ref-0123456789-", 140) // 2100 bytes
@@ -385,6 +400,12 @@ func init() {
 			scenarioDef{name: "opposite-transfers-deadlock-retry-and-writer", prefix: []lx.Op{seed, post("fund-a", p("world", "a", "USD", "5")), post("fund-b", p("world", "b", "USD", "5"))}, threads: [][]lx.Op{
 				{post("a>b", p("a", "b", "USD", "1"))},
 				{post("b>a", p("b", "a", "USD", "1"))},
+				{post("w>c", p("world", "c", "USD", "1"))}}},
+			// T0's first attempt is aborted by an injected 40P01 at its 3rd driver call: its write is
+			// redone by the retry loop while two other writers append
+			scenarioDef{name: "retried-writer-among-two-writers", prefix: []lx.Op{seed}, deadlockAt: map[int]int{0: 3}, threads: [][]lx.Op{
+				{post("w>a", p("world", "a", "USD", "1"))},
+				{post("w>b", p("world", "b", "USD", "1"))},
 				{post("w>c", p("world", "c", "USD", "1"))}}},
 			scenarioDef{name: "two-ops-each", prefix: []lx.Op{seed}, threads: [][]lx.Op{
 				{post("w>a", p("world", "a", "USD", "1")), {Kind: "txmeta", Name: "txmeta1", TxID: 1, Meta: map[string]string{"k": "v"}}},
@@ -562,6 +583,10 @@ func c08Conc() ([]*sched.Scenario, error) {
 			{post("a>b", p("a", "b", "USD", "1"))},
 			{{Kind: "post", Name: "b>a dry", Postings: []lx.P{p("b", "a", "USD", "1")}, DryRun: true}},
 			{post("w>e", p("world", "e", "USD", "1"))}}},
+		scenarioDef{name: "retried-dry-run-and-retried-writer-among-writers", prefix: []lx.Op{seed, fa, fb}, deadlockAt: map[int]int{0: 3, 1: 3}, threads: [][]lx.Op{
+			{{Kind: "post", Name: "w>e dry", Postings: []lx.P{p("world", "e", "USD", "1")}, DryRun: true}},
+			{post("a>c", p("a", "c", "USD", "1"))},
+			{post("b>d", p("b", "d", "USD", "1"))}}},
 		scenarioDef{name: "hash-logs-disabled-two-writers", ledgers: []lx.LedgerSpec{{Name: "l1", Features: map[string]string{"HASH_LOGS": "DISABLED"}}}, prefix: []lx.Op{seed, fa, fb}, threads: [][]lx.Op{
 			{post("a>c", p("a", "c", "USD", "1"))}, {post("b>d", p("b", "d", "USD", "1"))}}},
 	)()
